@@ -3,6 +3,7 @@ package c07
 import (
 	"bytes"
 	"fmt"
+	"github.com/cnotch/ipchub/media"
 	"net"
 	"sync"
 	"sync/atomic"
@@ -253,10 +254,7 @@ func runPlayersCase(t *testing.T, w wireCase) {
 		}
 	}
 	fseq, fts := uint16(40000), uint32(90000+9*probeStep)
-	collect := wireTimeout
-	if len(w.fr) > 3 {
-		collect = 6 * wireTimeout // megabytes go to three players at ipchub's paced flush rate
-	}
+	collect := wireTimeout // generous; the loop ends as soon as the last probe packet is there
 	deadline := time.Now().Add(collect)
 	for time.Now().Before(deadline) && !(seen(gotTCP) && seen(gotWS)) {
 		pub.WriteFrame(0, rtppack.Pkt{PT: 96, Marker: true, Seq: fseq, TS: fts, SSRC: probeSSRC, Payload: []byte{0x41, 0x9a, 0x02, 0x80, 0x80}}.Marshal())
@@ -284,6 +282,7 @@ func runPlayersCase(t *testing.T, w wireCase) {
 		c *rtspc.Client
 		o *playerOutcome
 	}{{tcp, &oTCP}, {ws, &oWS}, {udp, &oUDP}} {
+		pc.c.Timeout = generous
 		r, err := pc.c.Do("OPTIONS", url, nil, nil)
 		switch {
 		case err != nil:
@@ -294,6 +293,17 @@ func runPlayersCase(t *testing.T, w wireCase) {
 		outs = append(outs, *pc.o)
 	}
 	still := srv.Consumers(path)
+	if st := media.Get(path); st != nil && !allConsumersDrained(st) {
+		missing := false
+		for _, o := range outs {
+			missing = missing || o.Missing != ""
+		}
+		if missing {
+			// the server still holds packets for a player at the generous bound: no verdict
+			evid.Class("wire-players: inconclusive (packets still queued in the server at the bound)")
+			return
+		}
+	}
 	for _, o := range outs {
 		if o.Missing != "" || o.Conn != "" {
 			evid.Violation(t, "wire-players/"+o.Transport, map[string]any{"class": w.class, "hostile_frames": briefFrames(w.fr), "players": outs, "consumers_now": still},
@@ -306,6 +316,7 @@ func runPlayersCase(t *testing.T, w wireCase) {
 	}
 	// the publisher's session goroutine is not stuck: it answers a request; and when
 	// the publisher leaves, every player sees the end of the stream within the bound
+	pub.Timeout = generous
 	if r, err := pub.Do("OPTIONS", url, nil, nil); err != nil || r.Status != 200 {
 		evid.Violation(t, "wire-players/publisher", map[string]any{"class": w.class, "frames": len(w.fr)}, "(%s): the publisher's session does not answer OPTIONS after the frames: %v %v", w.class, r, err)
 	}
